@@ -24,6 +24,12 @@ func (tx *Tx) lockKey(key string) *metadata {
 	m, ok := tx.store.metadata.Get(key)
 	tx.store.mu.RUnlock()
 	if ok {
+		if tx.holds(m) && m.writeable {
+			// the command names this key twice (RPOPLPUSH l l, SMOVE s s m, DEL k k ...):
+			// the record is already write-locked by this transaction
+			m.count++
+			return m
+		}
 		m.Lock()
 		m.writeable = true
 		tx.lockedMetas = append(tx.lockedMetas, m)
@@ -33,11 +39,26 @@ func (tx *Tx) lockKey(key string) *metadata {
 	return m.empty()
 }
 
+// holds reports whether this transaction has already locked the record
+func (tx *Tx) holds(m *metadata) bool {
+	for _, locked := range tx.lockedMetas {
+		if locked == m {
+			return true
+		}
+	}
+	return false
+}
+
 func (tx *Tx) rLockKey(key string) *metadata {
 	tx.store.mu.RLock()
 	m, ok := tx.store.metadata.Get(key)
 	tx.store.mu.RUnlock()
 	if ok {
+		if tx.holds(m) {
+			// already locked (for reading or writing) by this transaction
+			m.count++
+			return m
+		}
 		m.RLock()
 		tx.lockedMetas = append(tx.lockedMetas, m)
 		m.count++
